@@ -3,7 +3,7 @@ current working tree and lets monitors judge them; see DESIGN.md section 6."""
 import os, sys, time
 from . import build, run
 
-SPEC = ["spec.c"]      # the independent Vorbis I model, linked into drivers that use model-made streams
+SPEC = ["spec.c", "mixed.c"]      # the independent Vorbis I model, linked into drivers that use model-made streams
 
 TRUST_COMMON = [
     "system libogg 1.3.5 (uninstrumented, static) is correct",
